@@ -211,7 +211,9 @@ func Rerun(dir, config, history string) (out RerunOut) {
 		models := m.Models
 		b, err := swagen.GenerateSpec(&cfg.OpenAPIGeneratorConfig, m.Flat, &models, m.PlainErrorPresent)
 		if err != nil {
-			return "spec-error: " + err.Error()
+			// only the fact is compared between passes: which of several offending operations the
+			// third-party document validator names first follows its own map iteration
+			return "spec-error"
 		}
 		return fmt.Sprintf("%x", sha(b))
 	}
